@@ -22,3 +22,6 @@ THEOREMS["C06"] += ["Backend.C06_poll_pops_unless_batch_guard", "Backend.C06_flu
                     "Backend.C06_flush_log_returns_concurrent", "Backend.C06_batch_guard_starves"]
 MODULES["C06"] += ["QuillModel.Props.C06Progress"]
 THEOREMS["C06"] += ["Backend.C06_nothing_older_arrives", "Backend.C06_flush_log_returns_concurrent_explicit"]
+# w2_prog: C09 under concurrent frontend activity (Props/C09Progress.lean)
+THEOREMS["C09"] += ["Backend.C09_retry_granted_once_queue_read", "Backend.C09_pass_reads_every_ripe_queue"]
+MODULES["C09"] += ["QuillModel.Props.C09Progress"]
